@@ -25,7 +25,7 @@
     persistent state, any allocator answers) + NewPeriodicSyncer. *)
 From BBS Require Import Common.Sx Persist.PBL Persist.PBLProofs Persist.Syncer Persist.SyncerProofs
   Persist.Shutdown Persist.ShutdownProofs Persist.ShutdownOrder Run.R03.
-From BBS Require Import Run.R03MonGhost Run.R03MonFields Run.R03MonReplay Run.R03Mon Run.R03MonAck Run.R03MonObs Run.R03MonInherit Run.R03MonEx.
+From BBS Require Import Run.R03MonGhost Run.R03MonFields Run.R03MonReplay Run.R03Mon Run.R03MonAck Run.R03MonObs Run.R03MonInherit Run.R03MonStoreFields Run.R03MonList Run.R03MonCopies Run.R03MonEx.
 Local Open Scope nat_scope.
 
 (** The ghost never influences the run. *)
@@ -299,6 +299,50 @@ Theorem mon03_obligations_sound_chain : forall inp obs, replay03 inp obs = [] ->
 Proof. exact R03MonInherit.mon03_obligations_sound_chain. Qed.
 Print Assumptions mon03_obligations_sound_chain.
 
+(** ... and the objects of those obligations ARE acknowledgements of the model.  The monitor keeps, per
+    acknowledged upload, the key and the LOCATION of the block its BlockList.Put went into, and
+    drops the copy when a PopFront at full occupancy removes the block at that location; the model's
+    ghost keeps the absolute block index and the BlockReference written into the index record.
+    Run/R03MonCopies.v runs a second bookkeeping [lst] alongside the monitor (which Put belongs to which
+    upload slot, which finalizer returned OK in the current op segment, which reference each copy's
+    finalizer reported: [l_cr]) and proves, for every accepted incarnation history satisfying the
+    decidable link checks [l_all] (every PopFront at full occupancy — the only eviction the monitor
+    excuses; a copy's upload had, with no PopFront since, an OK finalizer in its op segment, the one of
+    the Put recorded for its slot; no second restore entry — true on the 800 generated observations
+    they were evaluated on): the monitor's view of the list [m_live] is the list of the locations of
+    the model's blocks; every copy made in this incarnation has an acknowledgement of the model with
+    the reference its finalizer reported, NOT evicted, whose block sits at the copy's location; and if
+    the monitor carries the copy into the next incarnation as an obligation, the state the next
+    incarnation is restored from covers that acknowledgement and still lists its block, so the
+    reference resolves on the restarted list to that block with its seed, below the restored write
+    cursor.  What remains between this and "clauses 1, 4 silent" is the store above the block list:
+    that the read-back finds the index record (key-location map) and that the old/current/new map
+    admits the block. *)
+Theorem mon03_owed_copies_resolve : forall c cfg bs st0 now e0 es x0 x1 cfgsx objs ops m0,
+  replay_restore c cfg bs st0 now e0 = Some x0 ->
+  replay_entries cfg bs 1 x0 es = (x1, []) ->
+  m_fresh m0 -> m_start m0 ->
+  l_all cfgsx objs ops (mon_entry cfgsx objs ops m0 e0) (l0 m0) es = true ->
+  let m1 := fold_left (mon_entry cfgsx objs ops) (e0 :: es) m0 in
+  let l1 := l_fold cfgsx objs ops (mon_entry cfgsx objs ops m0 e0) (l0 m0) es in
+  map fst (l_cr l1) = m_copies m1 /\
+  m_live m1 = map fst (locs (s_pbl (x_sys x1))) /\
+  exists alloc oldest init gx, greachable cfg alloc oldest init now (x_sys x1) gx /\
+  forall cp ref, In (cp, ref) (l_cr l1) -> c_old cp = false ->
+    exists a, In a (g_acks (gs_g gx)) /\ a_ref a = (fst (fst ref), snd (fst ref)) /\ a_seed a = snd ref /\
+      totalReleased (s_pbl (x_sys x1)) <= a_abs a /\
+      loc_at (x_sys x1) (a_abs a) = Some (c_loc cp) /\
+      (m_prev (mon_exit m1) <> 0%Z ->
+         exists w rest, gs_writes gx = w :: rest /\ x_state x1 = gw_state w /\ covers w a /\
+           gw_base_abs w <= a_abs a /\
+           ((N.of_nat (a_ep a - gw_base_ep w) < 2 ^ 32)%N -> (Z.of_nat (a_last a - a_abs a) < 2 ^ 16)%Z ->
+            ref_to_index (fst (fst ref)) (snd (fst ref)) (restart_of (x_state x1))
+              = Ok (Some (a_abs a - gw_base_abs w, snd ref)) /\
+            exists b, nth_error (blocks (restart_of (x_state x1))) (a_abs a - gw_base_abs w) = Some b /\
+                      (a_end a <= b_written b)%Z)).
+Proof. exact R03MonCopies.mon03_owed_copies_resolve. Qed.
+Print Assumptions mon03_owed_copies_resolve.
+
 (** one incarnation, spelled out *)
 Theorem mon03_incarnation_sound : forall c cfg bs st0 now e0 es x0 x1 cfgsx objs ops m0,
   replay_restore c cfg bs st0 now e0 = Some x0 ->
@@ -335,7 +379,7 @@ Definition first_inc (inp obs : sx) : mst :=
 Example mon03_hyps_nonvacuous_graceful :
   is_marker exg_obs = false /\ replay03 exg_inp exg_obs = [] /\ u_obs exg_inp exg_obs = true /\
   mon03 exg_inp exg_obs = [] /\ length (sx_list exg_obs) = 2 /\
-  forallb all_restored_h (sx_list exg_obs) = true /\
+  forallb all_restored_h (sx_list exg_obs) = true /\ l_obs exg_inp exg_obs = true /\
   m_prev (first_inc exg_inp exg_obs) = 1%Z /\ length (m_copies (first_inc exg_inp exg_obs)) = 1 /\
   existsb (fun e => Z.eqb (tag e) 4 && Z.eqb (sx_Z (sx_nth e 2)) 1) (sx_list (sx_nth exg_obs 0)) = true.
 Proof. vm_compute. repeat split; reflexivity. Qed.
@@ -343,7 +387,7 @@ Proof. vm_compute. repeat split; reflexivity. Qed.
 Example mon03_hyps_nonvacuous_crash :
   is_marker exc_obs = false /\ replay03 exc_inp exc_obs = [] /\ u_obs exc_inp exc_obs = true /\
   mon03 exc_inp exc_obs = [] /\ length (sx_list exc_obs) = 3 /\
-  forallb all_restored_h (sx_list exc_obs) = true /\
+  forallb all_restored_h (sx_list exc_obs) = true /\ l_obs exc_inp exc_obs = true /\
   m_prev (first_inc exc_inp exc_obs) = 2%Z /\ length (m_copies (first_inc exc_inp exc_obs)) = 2.
 Proof. vm_compute. repeat split; reflexivity. Qed.
 
